@@ -433,6 +433,20 @@ jobs:
         shell: @{bash@|c13sh@}
 `
 
+// Template L: the events come last, so that mappings of every section group end at the end of the file.
+const c13TemplateL = `jobs:
+  job:
+    runs-on: @{ubuntu-latest@|${{ foo }}@}
+    steps:
+      - run: @{echo hi@|echo ${{ foo }}@}
+on:
+  workflow_dispatch:
+    inputs:
+      who:
+        type: @{string@|c13bogus@}
+        default: @{me@|[x]@}
+`
+
 type c13Template struct {
 	Name string
 	Text string
@@ -445,4 +459,5 @@ var c13Templates = []c13Template{
 	{"C", c13TemplateC},
 	{"N", c13TemplateN},
 	{"K", c13TemplateK},
+	{"L", c13TemplateL},
 }
